@@ -95,8 +95,33 @@ def run(ctx, model):
         pend.append(("status", "", s, "ok " + sx.name(txt)))
         if not txt or (s not in SERVICE_STATUS and ("%02x" % s) not in txt):
             ctx.violation("status-text", {"status": s}, "text %r" % txt)
+    # extended status texts: every (status, extended status) pair of the tables, carried as one and as two 16-bit words
+    from pycomm3.packets.util import get_extended_status
+    from pycomm3.cip import EXTEND_CODES
+    for st, tbl in EXTEND_CODES.items():
+        for ext, text in tbl.items():
+            forms = []
+            if ext < 0x10000:
+                forms.append(bytes([st, 1]) + ext.to_bytes(2, "little"))
+            forms.append(bytes([st, 2]) + ext.to_bytes(4, "little"))
+            if ext == 0:
+                forms.append(bytes([st, 0]))
+            for body in forms:
+                for start in (0, 42, 48):
+                    msg = bytes(start) + body + b"\x99"
+                    ctx.case("extended-status-text", ("ext", st, ext, body[1], start))
+                    try:
+                        got = get_extended_status(msg, start)
+                        impl = "ok N" if got is None else "ok " + sx.name(got)
+                    except Exception as e:  # noqa
+                        got, impl = None, "raise:" + core.exn_class(e)
+                    lines.append("status.ext %s %d" % (sx.hexb(msg), start))
+                    pend.append(("status.ext", "", (st, ext, body[1], start), impl))
+                    if not got or text not in got:
+                        ctx.violation("extended-status-text", {"status": st, "extended": ext, "words": body[1], "start": start},
+                                      "pair (%#x, %#x) is in the table (%r) but the lookup gave %r" % (st, ext, text, got))
     ctx.exhaustive = True
-    ctx.extra["rule"] = "every member of every EnumMap subclass x 6 letter casings x {[], get, in}; every reverse key; 3 absent keys per table; every status byte 0..255 (complete for the domain)"
+    ctx.extra["rule"] = "every member of every EnumMap subclass x 6 letter casings x {[], get, in}; every reverse key; 3 absent keys per table; every status byte 0..255; every tabulated (status, extended status) pair x word sizes x 3 offsets (complete for the domain)"
     ctx.sample({"tables": [T.__name__ for T in et.enum_maps()]})
     outs = model.batch(lines)
     for (op, tn, key, impl), out in zip(pend, outs):
